@@ -258,10 +258,10 @@ def has_iface(td):
 def modelled(c):
     """the Coq model covers the hprose codec with the default decoder options; the options (ListType, StructType,
     MapType, LongType, RealType) only act where a value is decoded into interface{}"""
-    if c["entry"] not in ("unmarshal", "service", "client"):
+    if c["entry"] not in ("unmarshal", "reader", "service", "client"):
         return False
     if c.get("o"):
-        if c["entry"] != "unmarshal" or has_iface(c["t"]):
+        if c["entry"] not in ("unmarshal", "reader") or has_iface(c["t"]):
             return False
     b = bytes.fromhex(c["hex"])
     if any(nm in b for nm in (b'Key', b'Labels', b'Node')):
@@ -272,7 +272,8 @@ def modelled(c):
 def model_line(c, fixbits, checked, table):
     if not modelled(c):
         return None
-    ent = {"unmarshal": "U", "service": "S", "client": "C"}[c["entry"]]
+    # "reader": the same bytes through UnmarshalFromReader; by C05 the outcome is that of the in-memory decode
+    ent = {"unmarshal": "U", "reader": "U", "service": "S", "client": "C"}[c["entry"]]
     if ent == "U":
         mode = "s" if c.get("mode") != "ref" else "r"
         shp = shape(c["t"])
@@ -593,6 +594,15 @@ class Gen:
         c["gen"] = gen
         self.cases.append(c)
         self.by_gen[gen] = self.by_gen.get(gen, 0) + 1
+        # the same hostile bytes from an io.Reader: all announce/digits/bomb cases, a share of the others
+        if c["entry"] == "unmarshal" and not c.get("o") and not over.get("stack") \
+           and (gen in ("announce", "digits", "bomb", "fixed") or self.rng.random() < 0.08):
+            r = dict(c)
+            r["entry"] = "reader"
+            r["id"] = len(self.cases)
+            r["gen"] = gen + "-reader"
+            self.cases.append(r)
+            self.by_gen[r["gen"]] = self.by_gen.get(r["gen"], 0) + 1
 
 
 def generate(ctx, seeds):
